@@ -283,6 +283,13 @@ func (c *Ctx) Eq(a, b *Term) *Term {
 		}
 	}
 	if b.IsConst() {
+		if a.Op == OpAdd && a.Args[1].IsConst() {
+			// x + c1 == c2  <=>  x == c2 - c1
+			return c.Eq(a.Args[0], c.BV(b.Val-a.Args[1].Val, a.Width))
+		}
+		if a.Op == OpIte && iteConstTree(a, 0) {
+			return c.eqIteConst(a, b)
+		}
 		if in := zextInner(a); in != nil {
 			if b.Val > mask(in.Width) {
 				return c.False
@@ -312,6 +319,24 @@ func (c *Ctx) Eq(a, b *Term) *Term {
 		a, b = b, a
 	}
 	return c.mk(OpEq, 0, []*Term{a, b}, 0, "")
+}
+
+// iteConstTree: t is a constant or an ite whose branches are such trees.
+func iteConstTree(t *Term, depth int) bool {
+	if t.Op == OpConst {
+		return true
+	}
+	if t.Op != OpIte || depth > 40 {
+		return false
+	}
+	return iteConstTree(t.Args[1], depth+1) && iteConstTree(t.Args[2], depth+1)
+}
+
+func (c *Ctx) eqIteConst(t, k *Term) *Term {
+	if t.Op == OpConst {
+		return c.Bool(t.Val == k.Val)
+	}
+	return c.Ite(t.Args[0], c.eqIteConst(t.Args[1], k), c.eqIteConst(t.Args[2], k))
 }
 
 func (c *Ctx) Ite(cond, a, b *Term) *Term {
@@ -735,6 +760,13 @@ func (c *Ctx) Concat(h, l *Term) *Term {
 	}
 	if h.IsConst() && h.Val == 0 {
 		return c.Zext(l, h.Width+l.Width)
+	}
+	if h.Op == OpExtract && l.Op == OpExtract && h.Args[0] == l.Args[0] {
+		hlo := int(h.Val & 0xff)
+		lhi := int(l.Val >> 8)
+		if hlo == lhi+1 {
+			return c.Extract(h.Args[0], int(h.Val>>8), int(l.Val&0xff))
+		}
 	}
 	return c.mk(OpConcat, h.Width+l.Width, []*Term{h, l}, 0, "")
 }
